@@ -222,6 +222,216 @@ def ctl_unvalidated_status_write(ctx):
                          pred, lambda n: None, [E.rule_F4], what="status setter without validation")
 
 
+def ctl_concurrency_not_clamped(ctx):
+    """Drop the normalisation of concurrency <= 0."""
+    import ast
+    from sa import paths as P
+
+    def pred(n):
+        return isinstance(n, ast.If) and "concurrency" in ast.unparse(n.test) and any(
+            isinstance(o, (ast.LtE, ast.Lt)) for x in ast.walk(n.test)
+            if isinstance(x, ast.Compare) for o in x.ops)
+
+    return _edit_control(ctx, "concurrency_not_clamped", COND,
+                         "WorkflowConductor._evaluate_task_actions", pred, lambda n: None,
+                         [P.rule_P8], what="with-items window without the concurrency clamp")
+
+
+def ctl_input_default_on_falsy(ctx):
+    """render_input that falls back to the default for any falsy runtime value."""
+    import ast
+    from sa import purity as PU
+
+    def pred(n):
+        return isinstance(n, ast.Call) and isinstance(n.func, ast.Attribute) and \
+            n.func.attr == "get" and len(n.args) == 2 and "runtime_inputs" in ast.unparse(n.func)
+
+    def repl(n):
+        dflt = n.args.pop()
+        return ast.BoolOp(op=ast.Or(), values=[n, dflt])
+
+    return _edit_control(ctx, "input_default_on_falsy", "orquesta/specs/native/v1/models.py",
+                         "WorkflowSpec.render_input", pred, repl, [PU.rule_V1],
+                         what="input default chosen by the runtime value")
+
+
+def ctl_validate_prefilter(ctx):
+    """expressions.base.validate that skips strings without a YAQL delimiter."""
+    import ast
+    from sa import speccov as SC
+
+    def pred(n):
+        return isinstance(n, ast.Call) and isinstance(n.func, ast.Attribute) and \
+            n.func.attr == "has_expressions" and isinstance(getattr(n, "_parent", None),
+                                                            ast.comprehension)
+
+    def repl(n):
+        return ast.BoolOp(op=ast.And(), values=[
+            ast.parse("'<%' in statement", mode="eval").body, n])
+
+    return _edit_control(ctx, "validate_prefilter", "orquesta/expressions/base.py", "validate",
+                         pred, repl, [SC.rule_S6], what="validate() pre-filters the text")
+
+
+def ctl_route_without_append(ctx):
+    """Allocate the route index without appending the new route."""
+    import ast
+    from sa import paths as P
+
+    def pred(n):
+        return isinstance(n, ast.Expr) and isinstance(n.value, ast.Call) and isinstance(
+            n.value.func, ast.Attribute) and n.value.func.attr == "append" and \
+            ast.unparse(n.value.func.value).endswith(".routes")
+
+    return _edit_control(ctx, "route_without_append", COND, "WorkflowConductor._evaluate_route",
+                         pred, lambda n: None, [P.rule_P9], what="route index without the append")
+
+
+def ctl_falsy_result_dropped(ctx):
+    """make_task_result that replaces a falsy result by None."""
+    import ast
+    from sa import purity as PU
+
+    def pred(n):
+        return isinstance(n, ast.Assign) and isinstance(n.value, ast.Attribute) and \
+            n.value.attr == "result"
+
+    def repl(n):
+        n.value = ast.BoolOp(op=ast.Or(), values=[n.value, ast.Constant(value=None)])
+        return n
+
+    return _edit_control(ctx, "falsy_result_dropped", COND, "WorkflowConductor.make_task_result",
+                         pred, repl, [PU.rule_V2], what="falsy task result replaced")
+
+
+def ctl_predicate_over_raw_sequence(ctx):
+    """has_canceled_tasks computed over the raw sequence."""
+    import ast
+    from sa import agree as G
+
+    def pred(n):
+        return isinstance(n, ast.Return)
+
+    def repl(n):
+        n.value = ast.parse("any(t.get('status') == statuses.CANCELED for t in self.sequence)",
+                            mode="eval").body
+        return n
+
+    return _edit_control(ctx, "predicate_over_raw_sequence", COND, "WorkflowState.has_canceled_tasks",
+                         pred, repl, [G.rule_G2], what="status predicate over superseded records")
+
+
+def ctl_mixed_identity(ctx):
+    """get_task_sequence comparing the parent's id with the child's route."""
+    import ast
+    from sa import agree as G
+
+    def pred(n):
+        return isinstance(n, ast.Subscript) and isinstance(n.slice, ast.Constant) and \
+            n.slice.value == "route" and isinstance(n.value, ast.Name) and n.value.id == "p"
+
+    def repl(n):
+        n.value = ast.Name(id="t", ctx=ast.Load())
+        return n
+
+    return _edit_control(ctx, "mixed_identity", COND, "WorkflowState.get_task_sequence",
+                         pred, repl, [G.rule_G3], what="id and route read from different records")
+
+
+def ctl_term_only_if_task_completed(ctx):
+    """Terminal mark only for a reporting task that is itself completed."""
+    import ast
+    from sa import paths as P
+
+    def pred(n):
+        return isinstance(n, ast.If) and "get_workflow_status" in ast.unparse(n.test) and any(
+            isinstance(x, ast.Assign) and "'term'" in ast.unparse(x.targets[0]) for x in n.body)
+
+    def repl(n):
+        n.test = ast.BoolOp(op=ast.And(), values=[
+            ast.parse("new_task_status in statuses.COMPLETED_STATUSES", mode="eval").body, n.test])
+        return n
+
+    return _edit_control(ctx, "term_only_if_task_completed", COND,
+                         "WorkflowConductor.update_task_state", pred, repl, [P.rule_P10],
+                         what="terminal mark with an extra condition")
+
+
+def ctl_override_on_canceled(ctx):
+    """Unreachable-join override of process_workflow_event widened to every completed status."""
+    import ast
+    from sa import effects as E
+
+    def pred(n):
+        return isinstance(n, ast.If) and "get_unreachable_barriers" in ast.unparse(n) and \
+            "SUCCEEDED" in ast.unparse(n.test)
+
+    def repl(n):
+        n.test = ast.parse("workflow_state.status in statuses.COMPLETED_STATUSES", mode="eval").body
+        return n
+
+    return _edit_control(ctx, "override_on_canceled", MACH,
+                         "WorkflowStateMachine.process_workflow_event", pred, repl, [E.rule_F10],
+                         what="unreachable-join override applied to a canceled workflow")
+
+
+def ctl_has_expressions_ignores_blocks(ctx):
+    """JinjaEvaluator.has_expressions that no longer looks for {% %} blocks."""
+    import ast
+    from sa import speccov as SC
+
+    def pred(n):
+        return isinstance(n, ast.Assign) and "_regex_block_parser" in ast.unparse(n.value)
+
+    def repl(n):
+        n.value = ast.List(elts=[], ctx=ast.Load())
+        return n
+
+    return _edit_control(ctx, "has_expressions_ignores_blocks", "orquesta/expressions/jinja.py",
+                         "JinjaEvaluator.has_expressions", pred, repl, [SC.rule_S7],
+                         what="has_expressions without the block recogniser")
+
+
+def ctl_graph_restore_without_copy(ctx):
+    """WorkflowGraph.deserialize that keeps the caller's document."""
+    from sa import agree as G
+    pred, repl = M.unwrap_call("deepcopy")
+    return _edit_control(ctx, "graph_restore_without_copy", "orquesta/graphing.py",
+                         "WorkflowGraph.deserialize", pred, repl, [G.rule_S1c],
+                         what="graph restored from the caller's document without a copy")
+
+
+def ctl_merge_skips_none(ctx):
+    """merge_dicts that does not overwrite with None."""
+    import ast
+    from sa import purity as PU
+
+    def pred(n):
+        return isinstance(n, ast.If) and isinstance(n.test, ast.Name) and any(
+            isinstance(x, ast.Assign) for x in n.body)
+
+    def repl(n):
+        n.test = ast.BoolOp(op=ast.And(), values=[n.test, ast.parse("v is not None", mode="eval").body])
+        return n
+
+    return _edit_control(ctx, "merge_skips_none", "orquesta/utils/dictionary.py", "merge_dicts",
+                         pred, repl, [PU.rule_O7], what="value-dependent overwrite in merge_dicts")
+
+
+def ctl_silent_noop_request(ctx):
+    """Drop the final rejecting raise of request_workflow_status."""
+    import ast
+    from sa import requests as RQ
+
+    def pred(n):
+        return isinstance(n, ast.If) and any(isinstance(x, ast.Raise) for x in n.body) and \
+            "InvalidWorkflowStatusTransition" in ast.unparse(n)
+
+    return _edit_control(ctx, "silent_noop_request", COND, "WorkflowConductor.request_workflow_status",
+                         pred, lambda n: None, [RQ.rule_F9],
+                         what="status request without the rejecting raise")
+
+
 def ctl_rerun_write_before_reject(ctx):
     """Move the second validation of request_workflow_rerun after the first write."""
     import ast
